@@ -265,6 +265,10 @@ pub struct ScriptedWriter<'a> {
     pub vectored_calls: usize,
     /// payload shape of the injected error (see `make_err`)
     pub fault_shape: u8,
+    /// every flush is not ready this many times before it completes (an async sink whose flush has to wait for the
+    /// peer: TLS, a BufWriter over a slow socket); 0 = flush completes at once
+    pub flush_pending: u8,
+    flush_waits: u8,
 }
 
 impl<'a> ScriptedWriter<'a> {
@@ -282,6 +286,8 @@ impl<'a> ScriptedWriter<'a> {
             vectored: false,
             vectored_calls: 0,
             fault_shape: 0,
+            flush_pending: 0,
+            flush_waits: 0,
         }
     }
     fn do_write_vectored(&mut self, bufs: &[io::IoSlice<'_>]) -> Result<Option<usize>, io::Error> {
@@ -368,8 +374,19 @@ impl<'a> AsyncWrite for ScriptedWriter<'a> {
     fn is_write_vectored(&self) -> bool {
         self.vectored
     }
-    fn poll_flush(self: Pin<&mut Self>, _cx: &mut Context<'_>) -> Poll<io::Result<()>> {
-        self.get_mut().flushes += 1;
+    fn poll_flush(self: Pin<&mut Self>, cx: &mut Context<'_>) -> Poll<io::Result<()>> {
+        let me = self.get_mut();
+        me.calls += 1;
+        if me.calls > me.max_calls {
+            panic!("MQV-SPIN sink flushed / written {} times", me.calls);
+        }
+        if me.flush_waits < me.flush_pending {
+            me.flush_waits += 1;
+            cx.waker().wake_by_ref();
+            return Poll::Pending;
+        }
+        me.flush_waits = 0;
+        me.flushes += 1;
         Poll::Ready(Ok(()))
     }
     fn poll_shutdown(self: Pin<&mut Self>, _cx: &mut Context<'_>) -> Poll<io::Result<()>> {
